@@ -58,8 +58,8 @@ def batches(ctx):
     ]
 
 
-OPS = ["glyfshift", "hmtx", "vmtx", "headflags", "cmap", "name", "os2", "deltable", "opaque", "subset", "scale", "reorder", "instantiate", "cffwidth"]
-SMALL_OPS = ["glyfshift", "hmtx", "vmtx", "headflags", "cmap", "name", "os2", "opaque"]
+OPS = ["glyfshift", "compbase", "hmtx", "vmtx", "headflags", "cmap", "name", "os2", "deltable", "opaque", "subset", "scale", "reorder", "instantiate", "cffwidth"]
+SMALL_OPS = ["glyfshift", "compbase", "hmtx", "vmtx", "headflags", "cmap", "name", "os2", "opaque"]
 VERTICAL = ["ttx:" + p for p in ("cffLib/data/TestSparseCFF2VF.ttx", "subset/data/NotdefWidthCID-Regular.ttx", "subset/data/NotoSansCJKjp-Regular.subset.ttx", "subset/data/TestCID-Regular.ttx", "subset/data/harfbuzz_repacker.ttx", "ttLib/tables/data/NotoColorEmoji.subset.index_format_3.ttx", "ttLib/tables/data/_v_h_e_a_recalc_OTF.ttx", "ttLib/tables/data/_v_h_e_a_recalc_TTF.ttx")]
 
 
@@ -119,8 +119,13 @@ def generate(ctx, batch, idx):
             ops.append(["headflags", {"k": 0, "seed": 0}])
         if r.random() < 0.25:
             # the source as another conforming writer stores it (oracles.container.foreign_variant)
-            h["foreign"] = {"longloca": r.random() < 0.6, "bit11": r.random() < 0.6, "order_seed": r.choice([None, r.randrange(1 << 16)])}
+            h["foreign"] = {"longloca": r.random() < 0.6, "bit11": r.random() < 0.6, "order_seed": r.choice([None, r.randrange(1 << 16)]), "loosebbox": r.choice([None, r.randrange(1 << 16)])}
             h["original"] = False
+            if h["foreign"]["loosebbox"] is not None and r.random() < 0.5:
+                # roomy boxes only survive to the writer when they are not recalculated
+                h["cfg"]["recalcBBoxes"] = False
+                h["cfg"]["flavor"] = r.choice([None, "woff", "woff2", "woff2"])
+                h["full"] = True
         if r.random() < 0.3:
             rops = []
             for _ in range(r.choice([0, 0, 1, 2])):
@@ -251,6 +256,8 @@ def exec_save(ctx, h, scratch):
                 raise AssertionError("foreign_variant produced an invalid file: %s" % errs0[:2])
             src = fv
             probes["foreign"] = 1
+            if h["foreign"].get("loosebbox") is not None:
+                probes["foreign.loosebbox"] = 1
             if h["foreign"]["longloca"] and struct.unpack_from(">h", members0[0]["head"], 50)[0] == 1 and len(members0[0].get("glyf", b"")) < 0x20000:
                 probes["foreign.longloca"] = 1
     cfg = h["cfg"]
@@ -621,7 +628,7 @@ def simplify(ctx, h):
         c = copy.deepcopy(h)
         del c["foreign"]
         yield c
-        for k, v in (("longloca", False), ("bit11", False), ("order_seed", None)):
+        for k, v in (("longloca", False), ("bit11", False), ("order_seed", None), ("loosebbox", None)):
             if h["foreign"].get(k) != v:
                 c = copy.deepcopy(h)
                 c["foreign"][k] = v
